@@ -429,6 +429,8 @@ def check(ctx: Ctx) -> list[RuleResult]:
             ve = expand(b.node, v)
             if isinstance(v, ast.Name) and comp is not None and _comp_binding(comp, v.id) == (M, "value"):
                 src = "map-value"
+            elif isinstance(v, ast.Name) and _elem_source(b.node, v, M, L) == "map-value":
+                src = "map-value"  # the loop form of the same comprehension: for k, v in self._map.items(): new[k'] = v
             elif isinstance(ve, ast.Name) and ve.id == dtm_p:
                 src = "param"
             elif isinstance(ve, ast.Subscript) and _self_attr(ve.value) == M:
@@ -757,6 +759,21 @@ def check(ctx: Ctx) -> list[RuleResult]:
         else:
             why = "the loop does not end after it" if not ends else ("the branch is not taken on exactly the null payload" if not tested else "a reply that may be the null entry is also processed by the plain path")
             r4.fail(f"{gf.short}:null-reply-handling", gf.loc(st), f"null-reply handling in get_faultlog: {why}")
+    # a read-through reads: no way out of get_faultlog (other than an exception) bypasses the request loop - an answer from what is
+    # believed (a cache of "current" entries) is exactly what the clause "whatever was believed before" excludes
+    cfg4 = ctx.plain_cfg(gf)
+    lp_nodes = [x for x in cfg4.nodes if x.ast is lp or x.ast is lp.iter]
+    rets = [x for x in cfg4.nodes if x.kind == "stmt" and isinstance(x.ast, ast.Return)]
+    if not lp_nodes or not rets:
+        raise AnalysisError("get_faultlog: loop/return nodes not found in the CFG")
+    doms4 = cfg4.dominators()
+    for rn in rets:
+        r4.instances += 1
+        r4.nontrivial += 1
+        if any(ln.id in doms4[rn.id] for ln in lp_nodes):
+            r4.ok({"return": norm(rn.ast)[:60], "after_the_request_loop": True})
+        else:
+            r4.fail(f"{gf.short}:return-without-reading", gf.loc(rn.ast), f"`{norm(rn.ast)[:60]}` leaves get_faultlog without entering the request loop: the caller is answered from what the library already believed, so after a lost announcement the view no longer equals the controller's log over the range asked for")
     out.append(r4)
 
     # ------------------------------------------------------------------------------------------------------------------
